@@ -1,0 +1,11 @@
+//go:build verif
+
+package master
+
+import "github.com/lindb/lindb/coordinator/discovery"
+
+// VerifProcessEvent feeds one discovery event synchronously into the state manager
+// (verification hook: the production path goes through the events channel).
+func VerifProcessEvent(m StateManager, event *discovery.Event) {
+	m.(*stateManager).processEvent(event)
+}
